@@ -28,12 +28,12 @@ theorem gen_in_guards : SigmaVerif.Gen.Conv.inGuards =
     ["not self.convert_or_as_in and isinstance(cond, ConditionOR) or (not self.convert_and_as_in and isinstance(cond, ConditionAND))",
      "not all((isinstance(arg, ConditionFieldEqualsValueExpression) for arg in cond.args))",
      "len(fields) != 1",
-     "not all([isinstance(arg.value, (SigmaString, SigmaNumber)) and (not isinstance(arg.value, SigmaCasedString)) for arg in args])",
+     "not all([isinstance(arg.value, (SigmaString, SigmaNumber)) and (not isinstance(arg.value, (SigmaCasedString, SigmaTimestampPart))) for arg in args])",
      "not self.in_expressions_allow_wildcards and any([arg.value.contains_special() for arg in args if isinstance(arg.value, SigmaString)])"] := rfl
 
 /-- `AtomInfo.inOk` / `AtomInfo.special` are computed by the harness from exactly these class names -/
 theorem gen_in_classes : SigmaVerif.Gen.Conv.inValueClasses = ["SigmaString", "SigmaNumber"] ∧
-    SigmaVerif.Gen.Conv.inExcluded = ["SigmaCasedString"] ∧
+    SigmaVerif.Gen.Conv.inExcluded = ["SigmaCasedString", "SigmaTimestampPart"] ∧
     SigmaVerif.Gen.Conv.inSpecialClasses = ["SigmaString"] := ⟨rfl, rfl, rfl⟩
 
 /-- `cidrAsOr`: a CIDR value counts as an OR iff there is no native CIDR expression (then it is a
